@@ -18,6 +18,7 @@ import (
 	"strconv"
 	"strings"
 	"sync"
+	"sync/atomic"
 	"testing"
 	"time"
 
@@ -43,10 +44,13 @@ type c08Op struct {
 type c08Scenario struct {
 	Keys []c08Key `json:"keys"`
 	Ops  []c08Op  `json:"ops"`
+	// Two: a second server with its own cache, its own badger directory and its own upstream
+	// answers the same Host and URIs (requests alternate between the two servers)
+	Two bool `json:"two,omitempty"`
 }
 
 func genC08(t *rapid.T) c08Scenario {
-	sc := c08Scenario{}
+	sc := c08Scenario{Two: rapid.IntRange(0, 9).Draw(t, "two") < 6}
 	nk := rapid.IntRange(20, 40).Draw(t, "nKeys")
 	for i := 0; i < nk; i++ {
 		k := c08Key{T: rapid.SampledFrom([]int{0, 2, 3, 4, 6, 8, 8, 30}).Draw(t, "T"), Size: rapid.SampledFrom([]int{10, 200, 3000}).Draw(t, "size")}
@@ -111,12 +115,16 @@ type c08Resp struct {
 	ReqID   string
 	CE      string
 	Epoch   int
+	Srv     int
 }
 
 var (
 	c08Once sync.Once
 	c08Up   *echoUpstream
+	c08UpB  *echoUpstream
 )
+
+var c08UpNames = [2]string{"U", "V"}
 
 func c08URI(caseTag string, key int, k c08Key) string {
 	typ := "text/plain"
@@ -125,21 +133,28 @@ func c08URI(caseTag string, key int, k c08Key) string {
 
 func execC08(sc c08Scenario) *vstat.Outcome {
 	out := &vstat.Outcome{}
-	c08Once.Do(func() { c08Up = newEchoUpstream("U") })
+	c08Once.Do(func() { c08Up = newEchoUpstream("U"); c08UpB = newEchoUpstream("V") })
 	dir, err := os.MkdirTemp("", "verif-c08-")
 	if err != nil {
 		out.Inconclusive = true
 		return out
 	}
 	defer os.RemoveAll(dir)
-	ports := freePorts(2)
+	ports := freePorts(3)
 	srvAddr := fmt.Sprintf("127.0.0.1:%d", ports[0])
 	adminPort := ports[1]
+	srvAddrs := [2]string{srvAddr, fmt.Sprintf("127.0.0.1:%d", ports[2])}
 	cfg := &config.PikeConfig{
 		Caches:    []config.CacheConfig{{Name: "c08", Size: 8, HitForPass: "2s", Store: "badger://" + dir + "/badger"}},
 		Upstreams: []config.UpstreamConfig{{Name: "c08up", HealthCheck: "/health", Servers: []config.UpstreamServerConfig{{Addr: c08Up.URL()}}}},
 		Locations: []config.LocationConfig{{Name: "c08loc", Upstream: "c08up"}},
 		Servers:   []config.ServerConfig{{Addr: srvAddr, Locations: []string{"c08loc"}, Cache: "c08"}},
+	}
+	if sc.Two {
+		cfg.Caches = append(cfg.Caches, config.CacheConfig{Name: "c08b", Size: 8, HitForPass: "2s", Store: "badger://" + dir + "/badger-b"})
+		cfg.Upstreams = append(cfg.Upstreams, config.UpstreamConfig{Name: "c08upb", HealthCheck: "/health", Servers: []config.UpstreamServerConfig{{Addr: c08UpB.URL()}}})
+		cfg.Locations = append(cfg.Locations, config.LocationConfig{Name: "c08locb", Upstream: "c08upb"})
+		cfg.Servers = append(cfg.Servers, config.ServerConfig{Addr: srvAddrs[1], Locations: []string{"c08locb"}, Cache: "c08b"})
 	}
 	data, err := marshalConfig(cfg)
 	if err != nil {
@@ -170,6 +185,10 @@ func execC08(sc c08Scenario) *vstat.Outcome {
 			return false
 		}
 		_ = t0
+		if sc.Two && !waitPort(srvAddrs[1], 12*time.Second) {
+			out.Violate("C08", "no-restart", "the second server did not listen within 12 s; output: %v", tail(p.errorLines(), 6))
+			return false
+		}
 		return true
 	}
 	if !start(true) {
@@ -191,14 +210,19 @@ func execC08(sc c08Scenario) *vstat.Outcome {
 		Start, End time.Time
 	}
 	var purges []purgeRec
+	var seq int64
 	get := func(key int) {
 		k := sc.Keys[key]
+		srv := 0
+		if sc.Two {
+			srv = int(atomic.AddInt64(&seq, 1)+int64(key)) % 2
+		}
 		hdr := map[string]string{}
 		if k.Gzip {
 			hdr["Accept-Encoding"] = "gzip"
 		}
-		r := pget(cl, srvAddr, "c08.test", c08URI(caseTag, key, k), hdr)
-		cr := &c08Resp{Key: key, Start: r.Start, End: r.End, Err: r.Err, Code: r.Code, ReqID: r.ReqID, Epoch: epoch}
+		r := pget(cl, srvAddrs[srv], "c08.test", c08URI(caseTag, key, k), hdr)
+		cr := &c08Resp{Key: key, Start: r.Start, End: r.End, Err: r.Err, Code: r.Code, ReqID: r.ReqID, Epoch: epoch, Srv: srv}
 		if r.Err == "" {
 			cr.XStatus, cr.Serial, cr.Age, cr.CE = r.Header.Get("X-Status"), r.Header.Get("X-Serial"), r.Header.Get("Age"), r.Header.Get("Content-Encoding")
 			body := r.Raw
@@ -207,7 +231,7 @@ func execC08(sc c08Scenario) *vstat.Outcome {
 					body, _ = io.ReadAll(zr)
 				}
 			}
-			cr.BodyOK = bytes.Equal(body, echoBody(k.Size, fmt.Sprintf("%s-%d", caseTag, key))) && r.Header.Get("X-Upstream") == "U" &&
+			cr.BodyOK = bytes.Equal(body, echoBody(k.Size, fmt.Sprintf("%s-%d", caseTag, key))) && r.Header.Get("X-Upstream") == c08UpNames[srv] &&
 				fmt.Sprint(r.Header.Values("Vary")) == "[Accept-Encoding, X-Client-Kind]" && fmt.Sprint(r.Header.Values("Last-Modified")) == "[Wed, 21 Oct 2015 07:28:00 GMT]" &&
 				fmt.Sprint(r.Header.Values("Link")) == "[</a>; rel=preload </b>; rel=preload, </c>; rel=prefetch]" && r.Header.Get("Content-Type") == "text/plain" &&
 				strings.HasPrefix(r.Header.Get("X-Echo-Path"), "/c08/"+caseTag+"/k"+strconv.Itoa(key))
@@ -282,15 +306,19 @@ func execC08(sc c08Scenario) *vstat.Outcome {
 		}
 	}
 	// ---- history oracle
-	c08Up.mu.Lock()
-	logs := append([]echoLog{}, c08Up.logs...)
-	c08Up.mu.Unlock()
+	var logs []echoLog
 	bySerial := map[string]echoLog{}
 	byReq := map[string]echoLog{}
-	for _, l := range logs {
-		if strings.Contains(l.URI, "/c08/"+caseTag+"/") {
-			bySerial["U-"+strconv.Itoa(l.Serial)] = l
-			byReq[l.ReqID] = l
+	for ui, up := range []*echoUpstream{c08Up, c08UpB} {
+		up.mu.Lock()
+		ul := append([]echoLog{}, up.logs...)
+		up.mu.Unlock()
+		for _, l := range ul {
+			if strings.Contains(l.URI, "/c08/"+caseTag+"/") {
+				bySerial[c08UpNames[ui]+"-"+strconv.Itoa(l.Serial)] = l
+				byReq[l.ReqID] = l
+				logs = append(logs, l)
+			}
 		}
 	}
 	respByReq := map[string]*c08Resp{}
@@ -324,7 +352,7 @@ func execC08(sc c08Scenario) *vstat.Outcome {
 			continue // killed mid-flight
 		}
 		k := sc.Keys[r.Key]
-		what := fmt.Sprintf("request %s on key %d (T=%d) in instance %d", r.ReqID, r.Key, k.T, r.Epoch)
+		what := fmt.Sprintf("request %s on key %d (T=%d) through server %d in instance %d", r.ReqID, r.Key, k.T, r.Srv, r.Epoch)
 		if r.Code != 200 {
 			out.Violate("C08", "status", "%s: status %d (X-Status %q)", what, r.Code, r.XStatus)
 			continue
@@ -353,6 +381,10 @@ func execC08(sc c08Scenario) *vstat.Outcome {
 		src, ok := bySerial[r.Serial]
 		if !ok {
 			out.Violate("C08", "unknown-serial", "%s: served from cache with serial %q which no upstream exchange of this case produced", what, r.Serial)
+			continue
+		}
+		if !strings.HasPrefix(r.Serial, c08UpNames[r.Srv]+"-") {
+			out.Violate("C08", "altered", "%s: served from cache the response %s, which was fetched through the other server (another cache with another store directory and another upstream)", what, r.Serial)
 			continue
 		}
 		if !strings.Contains(src.URI, fmt.Sprintf("/k%d?", r.Key)) {
@@ -404,10 +436,14 @@ func execC08(sc c08Scenario) *vstat.Outcome {
 		}
 		for key := range sc.Keys {
 			if strings.Contains(l.URI, fmt.Sprintf("/k%d?", key)) {
-				if prev, ok := lastFetch[key]; ok && sc.Keys[key].T > 0 && l.At.Sub(prev.At).Seconds() >= float64(sc.Keys[key].T) {
+				id := key
+				if l.Name == c08UpNames[1] {
+					id += 100000
+				}
+				if prev, ok := lastFetch[id]; ok && sc.Keys[key].T > 0 && l.At.Sub(prev.At).Seconds() >= float64(sc.Keys[key].T) {
 					expiredRefetch++
 				}
-				lastFetch[key] = l
+				lastFetch[id] = l
 			}
 		}
 	}
@@ -422,6 +458,9 @@ func execC08(sc c08Scenario) *vstat.Outcome {
 		out.Class("purged")
 	}
 	out.Class(fmt.Sprintf("kills_%d", len(killTimes)))
+	if sc.Two {
+		out.Class("two_servers_two_store_directories")
+	}
 	out.Evals = len(resps)
 	return out
 }
